@@ -21,7 +21,11 @@ ForeignBytes(t, m, bo, good) ==
 ForeignCases == LET bs == {ForeignBytes(t, m, bo, good) : t \in {"MultiPoint", "MultiLineString", "MultiPolygon"},
                                                        m \in {x \in ForeignMember : TRUE}, bo \in {0, 1}, good \in {0, 1, 2}}
                     bad == {b \in bs : ~DecBytes(b).ok}
-                IN {[kind |-> "dec", bytes |-> b, valid |-> FALSE] : b \in bad}
+                    (* unknown type codes, 0 among them, alone and as a member *)
+                    unk == {<<bo>> \o U32(ty, bo) \o tail : bo \in {0, 1}, ty \in {0, 8, 255}, tail \in {<<>>, <<0, 0, 0, 0>>, PtB(PtK(1), 0)}}
+                          \cup {<<bo>> \o U32(TypeCode(t), bo) \o U32(1, bo) \o <<bo>> \o U32(0, bo) \o PtB(PtK(1), bo) :
+                                   bo \in {0, 1}, t \in {"MultiPoint", "MultiLineString", "MultiPolygon", "GeometryCollection"}}
+                IN {[kind |-> "dec", bytes |-> b, valid |-> FALSE] : b \in bad \cup unk}
                    \cup {[kind |-> "dec", bytes |-> <<0>> \o U32(7, 0) \o U32(2, 0) \o b \o EncBytes(G("Point", PtK(4)), 0), valid |-> FALSE] : b \in bad}
 GenInit == IF Mode = "foreign" THEN c \in ForeignCases /\ PrintT(ToJson(c)) /\ Init
            ELSE IF Mode = "codec"
